@@ -24,6 +24,8 @@
 //	    level: major anything, minor only minor/patch, patch only patch
 //	(4) a direct requirement of a package configured `none` has the same requirement string in the
 //	    written manifest as in the original
+//	(4b) every other direct requirement (not among the reported updates) resolves, in the manifest files on disk after
+//	    the run (child pom and local parent pom), to the same version as before, or moved upward within its level
 //	(5) the tuple terminates (120 s watchdog per tuple; normal cost < 5 ms) and does not panic
 //
 // Don't-care cells (accepted whatever the implementation does; counted in the evidence):
@@ -109,8 +111,12 @@ var levelName = []string{"major", "minor", "patch", "none"}
 // sharedProp: the other manifest packages whose requirement is written with the same
 // property as name's (one textual change moves all of them).
 func sharedProp(c *u.Case, name string) map[string]bool {
+	all := append([]u.Req{}, c.Manifest...)
+	if c.Parent != nil {
+		all = append(all, c.Parent.Reqs...)
+	}
 	prop := ""
-	for _, q := range c.Manifest {
+	for _, q := range all {
 		if c.Full(q.Name) == name {
 			prop = q.Prop
 		}
@@ -119,7 +125,7 @@ func sharedProp(c *u.Case, name string) map[string]bool {
 	if prop == "" {
 		return out
 	}
-	for _, q := range c.Manifest {
+	for _, q := range all {
 		if q.Prop == prop && c.Full(q.Name) != name {
 			out[c.Full(q.Name)] = true
 		}
@@ -131,8 +137,12 @@ func sharedProp(c *u.Case, name string) map[string]bool {
 func without(c *u.Case, ups []result.PackageUpdate, i int) []result.PackageUpdate {
 	grp := sharedProp(c, ups[i].Name)
 	out := make([]result.PackageUpdate, 0, len(ups)-1)
+	same := func(a, b result.PackageUpdate) bool {
+		return a.Name == b.Name && a.VersionFrom == b.VersionFrom && a.VersionTo == b.VersionTo && a.Type.Compare(b.Type) == 0
+	}
 	for j, x := range ups {
-		if j != i && !grp[x.Name] {
+		// an update listed twice (identical name, type, from, to) is one change
+		if j != i && !grp[x.Name] && !same(x, ups[i]) {
 			out = append(out, x)
 		}
 	}
@@ -156,7 +166,7 @@ func softLiteral(c *u.Case, r *u.Resolved, name string) (string, bool) {
 
 // checkUpdates applies the oracle to one set of package updates. full is the
 // manifest with all of ups applied (nil: materialise it here).
-func checkUpdates(st string, c *u.Case, dir string, base []byte, ups []result.PackageUpdate, full []byte, kind string, out *tupleOut) {
+func checkUpdates(st string, c *u.Case, dir string, base u.Files, ups []result.PackageUpdate, full *u.Files, kind string, out *tupleOut) {
 	if len(ups) == 0 {
 		return
 	}
@@ -169,15 +179,15 @@ func checkUpdates(st string, c *u.Case, dir string, base []byte, ups []result.Pa
 		}
 	}
 	if full == nil {
-		var err error
-		full, err = c.Materialise(filepath.Join(dir, "full"), base, ups)
+		f, err := c.MaterialiseFiles(filepath.Join(dir, "full"), base, ups)
+		full = &f
 		if err != nil {
 			out.dc("writer-refused-patch")
 			out.logf("%s: writer refused %v: %v", kind, ups, err)
 			return
 		}
 	}
-	rFull, err := c.ResolveBytes(filepath.Join(dir, "full"), full)
+	rFull, err := c.ResolveFiles(filepath.Join(dir, "full"), *full)
 	if rFull == nil {
 		out.dc("patched-manifest-unreadable")
 		out.logf("%s: patched manifest %v cannot be read: %v", kind, ups, err)
@@ -190,12 +200,12 @@ func checkUpdates(st string, c *u.Case, dir string, base []byte, ups []result.Pa
 	}
 	for i, up := range ups {
 		out.updates++
-		part, err := c.Materialise(filepath.Join(dir, "part"), base, without(c, ups, i))
+		part, err := c.MaterialiseFiles(filepath.Join(dir, "part"), base, without(c, ups, i))
 		if err != nil {
 			out.dc("writer-refused-partial-patch")
 			continue
 		}
-		rPart, err := c.ResolveBytes(filepath.Join(dir, "part"), part)
+		rPart, err := c.ResolveFiles(filepath.Join(dir, "part"), part)
 		if rPart == nil {
 			out.dc("partial-manifest-unreadable")
 			continue
@@ -206,7 +216,23 @@ func checkUpdates(st string, c *u.Case, dir string, base []byte, ups []result.Pa
 		var v0, v1 string
 		var n0, n1 int
 		missing := false
-		if c.Eco == u.Maven && u.CountDirect(rFull.Manifest, up.Name) >= 2 {
+		if upOrigin, _ := up.Type.GetAttr(dep.MavenDependencyOrigin); c.Eco == u.Maven && (u.CountAll(rFull.Manifest, up.Name) >= 2 || upOrigin != "") && u.CountDirect(rFull.Manifest, up.Name) < 2 && u.CountAll(rPart.Manifest, up.Name) >= 1 && declaredTwice(c, up.Name) {
+			// The artifact is declared under two origins (e.g. <dependencies> and <dependencyManagement>): an update
+			// belongs to ONE declaration (the origin recorded in its type) and is judged against that requirement,
+			// before and after (plain version = itself, range = highest matching registry version).
+			cl, _ := up.Type.GetAttr(dep.MavenClassifier)
+			at, _ := up.Type.GetAttr(dep.MavenArtifactType)
+			if q, n := u.RequirementAt(rPart.Manifest, up.Name, cl, at, upOrigin); n == 1 {
+				if v, ok := c.Denoted(up.Name, q); ok {
+					v0, n0 = v, 1
+				}
+			}
+			if q, n := u.RequirementAt(rFull.Manifest, up.Name, cl, at, upOrigin); n == 1 {
+				if v, ok := c.Denoted(up.Name, q); ok {
+					v1, n1 = v, 1
+				}
+			}
+		} else if c.Eco == u.Maven && u.CountDirect(rFull.Manifest, up.Name) >= 2 {
 			// The package is required more than once (jar + classifier/type variants): the graph has no single
 			// version for it, so each update is judged against ITS OWN requirement: the version that requirement
 			// denotes taken alone (plain version = itself, range = highest matching registry version), before/after.
@@ -254,8 +280,12 @@ func checkUpdates(st string, c *u.Case, dir string, base []byte, ups []result.Pa
 			out.dc("new-version-undefined")
 			continue
 		}
-		p0, ok0 := u.ParseV(v0)
-		p1, ok1 := u.ParseV(v1)
+		parse := u.ParseV
+		if c.Eco == u.Maven {
+			parse = u.ParseVLoose // also the equal-ordered Maven spellings (1.0 = 1.0.0 = 1.0-ga = 1.0.Final)
+		}
+		p0, ok0 := parse(v0)
+		p1, ok1 := parse(v1)
 		if !ok0 || !ok1 {
 			out.dc("version-outside-reference-order")
 			continue
@@ -270,7 +300,11 @@ func checkUpdates(st string, c *u.Case, dir string, base []byte, ups []result.Pa
 			}
 			out.add(key, "%s", desc)
 		case cmp == 0:
-			out.add(st+":no-upward-move", "%s", desc)
+			key := st + ":no-upward-move"
+			if v0 != v1 {
+				key = st + ":equal-version-respelled" // the "update" goes to another spelling of the same version
+			}
+			out.add(key, "%s", desc)
 		default:
 			if lvl < 3 && u.DiffLevel(p0, p1) < lvl {
 				key := st + ":exceeds-level"
@@ -285,13 +319,13 @@ func checkUpdates(st string, c *u.Case, dir string, base []byte, ups []result.Pa
 }
 
 // noneRequirementsKept: direct requirements of packages configured none keep their requirement string.
-func noneRequirementsKept(st string, c *u.Case, dir string, base, written []byte, out *tupleOut) {
+func noneRequirementsKept(st string, c *u.Case, dir string, base, written u.Files, out *tupleOut) {
 	rw, err := c.ReadWriter()
 	if err != nil {
 		return
 	}
-	read := func(sub string, data []byte) []u.ReqView {
-		p, err := c.PutManifest(filepath.Join(dir, sub), data)
+	read := func(sub string, data u.Files) []u.ReqView {
+		p, err := c.PutFiles(filepath.Join(dir, sub), data)
 		if err != nil {
 			return nil
 		}
@@ -326,6 +360,74 @@ func noneRequirementsKept(st string, c *u.Case, dir string, base, written []byte
 	}
 }
 
+// unlistedMoves: the manifest(s) on disk after FixVulns/Update also bind every direct requirement that is NOT one of
+// the reported updates: its package must still resolve to the same version, or have moved strictly upward within
+// its level (the property covers every dependency change "applied", listed or not).
+func unlistedMoves(st string, c *u.Case, dir string, base, written u.Files, applied []result.PackageUpdate, out *tupleOut) {
+	rBase, err := c.ResolveFiles(filepath.Join(dir, "full"), base)
+	if err != nil || rBase == nil {
+		return
+	}
+	rNew, err := c.ResolveFiles(filepath.Join(dir, "part"), written)
+	if err != nil || rNew == nil {
+		return
+	}
+	listed := map[string]bool{}
+	for _, up := range applied {
+		o, _ := up.Type.GetAttr(dep.MavenDependencyOrigin)
+		if o == "" || !declaredTwice(c, up.Name) {
+			listed[up.Name] = true // an update of another declaration (management, profile) does not list the direct one
+		}
+	}
+	seen := map[string]bool{}
+	for _, q := range u.Requirements(rBase.Manifest) {
+		if q.Origin != "" || listed[q.Name] || seen[q.Name] {
+			continue
+		}
+		seen[q.Name] = true
+		if u.CountDirect(rBase.Manifest, q.Name) != 1 {
+			continue
+		}
+		v0, n0 := u.VersionOf(rBase.Graph, q.Name)
+		v1, n1 := u.VersionOf(rNew.Graph, q.Name)
+		if n0 != 1 || n1 != 1 || v0 == v1 {
+			continue
+		}
+		p0, ok0 := u.ParseV(v0)
+		p1, ok1 := u.ParseV(v1)
+		if !ok0 || !ok1 {
+			continue
+		}
+		lvl := c.Level(q.Name)
+		desc := fmt.Sprintf("applied manifest: %s is not among the reported updates %v but its resolved version moved %s -> %s on disk (level %s, cfg=%v)", q.Name, applied, v0, v1, levelName[lvl], c.Cfg)
+		key := ""
+		switch {
+		case len(sharedProp(c, q.Name)) > 0:
+			key = "pom:shared-property-collateral-change"
+		case lvl == 3:
+			key = st + ":none-requirement-changed"
+		case u.CmpV(p1, p0) < 0:
+			key = st + ":downgrade"
+		case u.DiffLevel(p0, p1) < lvl:
+			key = st + ":exceeds-level"
+		}
+		if key != "" && (key != "pom:shared-property-collateral-change" || lvl == 3 || u.CmpV(p1, p0) < 0 || u.DiffLevel(p0, p1) < lvl) {
+			out.add(key, "%s", desc)
+		}
+	}
+}
+
+// declaredTwice: the case's manifest declares the package under more than one origin.
+func declaredTwice(c *u.Case, fullName string) bool {
+	origins := map[string]bool{}
+	for _, q := range c.Manifest {
+		if c.Full(q.Name) == fullName {
+			origins[q.Origin] = true
+		}
+	}
+	return len(origins) > 1
+}
+
 func classifyPanic(st string, p any, stack string) string {
 	site := ev.PanicSite(stack)
 	if st == stUpdate && strings.Contains(site, "suggestMavenVersion") {
@@ -340,12 +442,12 @@ func classifyPanic(st string, p any, stack string) string {
 }
 
 func runFix(st string, c *u.Case, dir string, out *tupleOut) {
-	base := c.ManifestBytes()
+	base := c.BaseFiles()
 	ctx := context.Background()
 	// candidates through the hook
 	var cands []result.Patch
 	p, stack := ev.Recover(func() {
-		path, err := c.PutManifest(filepath.Join(dir, "m"), base)
+		path, err := c.PutFiles(filepath.Join(dir, "m"), base)
 		if err != nil {
 			panic(err)
 		}
@@ -392,9 +494,9 @@ func runFix(st string, c *u.Case, dir string, out *tupleOut) {
 	// applied
 	var res result.Result
 	var ferr error
-	var written []byte
+	var written *u.Files
 	p, stack = ev.Recover(func() {
-		path, err := c.PutManifest(filepath.Join(dir, "m"), base)
+		path, err := c.PutFiles(filepath.Join(dir, "m"), base)
 		if err != nil {
 			panic(err)
 		}
@@ -403,7 +505,9 @@ func runFix(st string, c *u.Case, dir string, out *tupleOut) {
 			panic(err)
 		}
 		res, ferr = guidedremediation.FixVulns(o)
-		written, _ = os.ReadFile(path)
+		if w, err := c.ReadFiles(filepath.Join(dir, "m")); err == nil {
+			written = &w
+		}
 	})
 	if p != nil {
 		out.add(classifyPanic(st, p, stack), "FixVulns panics: %v", p)
@@ -423,17 +527,18 @@ func runFix(st string, c *u.Case, dir string, out *tupleOut) {
 	out.logf("FixVulns applied %d patches: %v", len(res.Patches), applied)
 	checkUpdates(st, c, dir, base, applied, written, "applied", out)
 	if written != nil {
-		noneRequirementsKept(st, c, dir, base, written, out)
+		noneRequirementsKept(st, c, dir, base, *written, out)
+		unlistedMoves(st, c, dir, base, *written, applied, out)
 	}
 }
 
 func runUpdate(c *u.Case, dir string, out *tupleOut) {
-	base := c.ManifestBytes()
+	base := c.BaseFiles()
 	var res result.Result
 	var uerr error
-	var written []byte
+	var written *u.Files
 	p, stack := ev.Recover(func() {
-		path, err := c.PutManifest(filepath.Join(dir, "m"), base)
+		path, err := c.PutFiles(filepath.Join(dir, "m"), base)
 		if err != nil {
 			panic(err)
 		}
@@ -442,7 +547,9 @@ func runUpdate(c *u.Case, dir string, out *tupleOut) {
 			panic(err)
 		}
 		res, uerr = guidedremediation.Update(options.UpdateOptions{Manifest: path, ResolveClient: cl, UpgradeConfig: c.UpgradeConfig()})
-		written, _ = os.ReadFile(path)
+		if w, err := c.ReadFiles(filepath.Join(dir, "m")); err == nil {
+			written = &w
+		}
 	})
 	if p != nil {
 		out.add(classifyPanic(stUpdate, p, stack), "Update panics: %v", p)
@@ -464,7 +571,8 @@ func runUpdate(c *u.Case, dir string, out *tupleOut) {
 	out.logf("Update proposes %v", applied)
 	checkUpdates(stUpdate, c, dir, base, applied, written, "applied", out)
 	if written != nil {
-		noneRequirementsKept(stUpdate, c, dir, base, written, out)
+		noneRequirementsKept(stUpdate, c, dir, base, *written, out)
+		unlistedMoves(stUpdate, c, dir, base, *written, applied, out)
 	}
 }
 
@@ -474,6 +582,14 @@ func runTuple(st string, c *u.Case, dir string) *tupleOut {
 		runUpdate(c, dir, out)
 	} else {
 		runFix(st, c, dir, out)
+	}
+	// one root cause for every level/direction finding on an artifact that is declared under two origins
+	for i, f := range out.findings {
+		for _, q := range c.Manifest {
+			if declaredTwice(c, c.Full(q.Name)) && !strings.Contains(f.Key, ":panic") && !strings.Contains(f.Key, ":hang") {
+				out.findings[i].Key = "maven:artifact-declared-under-two-origins"
+			}
+		}
 	}
 	return out
 }
@@ -617,6 +733,9 @@ func main() {
 			runAll(stOverride, func(emit func(*u.Case)) { b.GenPreShape(u.Maven, emit) })
 			runAll(stRelax, func(emit func(*u.Case)) { b.GenPreShape(u.NPM, emit) })
 			runAll(stRelax, func(emit func(*u.Case)) { b.GenAliasShape(emit) })
+			// Maven projects with a local parent pom sharing a property between two packages
+			runAll(stOverride, func(emit func(*u.Case)) { b.GenParentShape(emit) })
+			runAll(stUpdate, func(emit func(*u.Case)) { b.GenParentShape(emit) })
 			// mixed-case / separator-rich registry names, upgrade config built through both construction routes
 			runAll(stUpdate, func(emit func(*u.Case)) { b.GenNameShape(u.Maven, "name-update", emit) })
 			for _, nsh := range []string{"name-solo", "name-chain"} {
@@ -624,6 +743,30 @@ func main() {
 				runAll(stRelax, func(emit func(*u.Case)) { b.GenNameShape(u.NPM, nsh, emit) })
 			}
 		}
+	}
+
+	if os.Getenv("VERIF_C11_CANDIDATES") == "1" {
+		// shapes under triage by the lead; not part of the default run
+		runAll(stUpdate, func(emit func(*u.Case)) { b.GenCandidateShapes("equal-update", emit) })
+		runAll(stOverride, func(emit func(*u.Case)) { b.GenCandidateShapes("equal-override", emit) })
+		// second declaration's origin: dependencyManagement unless VERIF_C11_CANDIDATE_ORIGIN names another one or "all"
+		// (profile declarations lose their origin when the reader merges profiles; those results are not settled)
+		only := os.Getenv("VERIF_C11_CANDIDATE_ORIGIN")
+		if only == "" {
+			only = u.OriginManagement
+		}
+		keep := func(emit func(*u.Case)) func(*u.Case) {
+			return func(c *u.Case) {
+				if only == "all" || (len(c.Manifest) > 1 && c.Manifest[1].Origin == only) {
+					emit(c)
+				}
+			}
+		}
+		runAll(stUpdate, func(emit func(*u.Case)) { b.GenCandidateShapes("origins-update", keep(emit)) })
+		for _, sh := range u.OriginShapes {
+			runAll(stOverride, func(emit func(*u.Case)) { b.GenOriginShape(sh, keep(emit)) })
+		}
+		r.Assume("VERIF_C11_CANDIDATES=1: candidate shapes (equal-ordered Maven spellings, one artifact under two origins) included")
 	}
 
 	dc := map[string]int64{}
@@ -638,8 +781,8 @@ func main() {
 	r.Set("dont_care_cells_hit", dc)
 	r.Assume("the in-memory deps.dev LocalClient and the npm/Maven resolvers of deps.dev/util/resolve are the resolution semantics (the same ones the repository's own tests use)")
 	r.Assume("vulnerability matching uses the repository's IsAffected (decided separately by C18)")
-	rule := "For every tuple (universe, manifest, vulnerability set, upgrade config) of the bounded product below, for npm/relax and Maven/override (all candidate patches of ComputePatches and the patches FixVulns applies) and Maven/Update: every PackageUpdate u of a patch P has level(u.Name) != none; with v0 = version u.Name resolves to in manifest+(P-u) and v1 = in manifest+P (real writer, reader and resolver), v1 > v0 in the reference order and the most significant differing component of v0->v1 is allowed by the level (major: any, minor: minor/patch, patch: patch); direct requirements of `none` packages are textually unchanged in the written manifest; no tuple panics or runs longer than 120 s. " +
-		"Bound (" + r.Tier + "): " + b.Describe() + "; shapes " + strings.Join(u.FixShapes, ", ") + " (FixVulns; sharedprop Maven only) plus alias-solo, alias-plain, alias-chain (GenAliasShape, npm: a direct dependency declared as \"<alias>\": \"npm:<real>@<req>\", alone / next to a plain requirement of the same package / constraining a vulnerable transitive package; levels keyed by the real name, alias-keyed entries as controls) name-solo, name-chain, name-update (GenNameShape: registry names from " + fmt.Sprint(u.NameAlphabet) + " instead of d1/t1, upgrade config built by Config.Set and by NewConfigFromStrings, keyed by the exact name) and prerelease (GenPreShape: solo over the ladder " + strings.Join(u.LadderPre, " ") + " with interleaved pre-releases) and update-solo, update-pair, update-dup (Update; update-dup = one package required twice, jar a1 and tests/test-jar a2, a1,a2 over the ladder) as defined in verif/universe/gen.go, each the full product of its lists, enumerated simplest first."
+	rule := "For every tuple (universe, manifest, vulnerability set, upgrade config) of the bounded product below, for npm/relax and Maven/override (all candidate patches of ComputePatches and the patches FixVulns applies) and Maven/Update: every PackageUpdate u of a patch P has level(u.Name) != none; with v0 = version u.Name resolves to in manifest+(P-u) and v1 = in manifest+P (real writer, reader and resolver), v1 > v0 in the reference order and the most significant differing component of v0->v1 is allowed by the level (major: any, minor: minor/patch, patch: patch); direct requirements of `none` packages are textually unchanged in the written manifest and every direct requirement that is not a reported update still resolves, from the files on disk, to the same version or moved upward within its level; no tuple panics or runs longer than 120 s. " +
+		"Bound (" + r.Tier + "): " + b.Describe() + "; shapes " + strings.Join(u.FixShapes, ", ") + " (FixVulns; sharedprop Maven only) plus alias-solo, alias-plain, alias-chain (GenAliasShape, npm: a direct dependency declared as \"<alias>\": \"npm:<real>@<req>\", alone / next to a plain requirement of the same package / constraining a vulnerable transitive package; levels keyed by the real name, alias-keyed entries as controls) parent-req, parent-rev, parent-prop (GenParentShape, Maven: local parent pom parent.xml defining a property shared by the vulnerable d1 and another package d2, requirements split between parent and child) and name-solo, name-chain, name-update (GenNameShape: registry names from " + fmt.Sprint(u.NameAlphabet) + " instead of d1/t1, upgrade config built by Config.Set and by NewConfigFromStrings, keyed by the exact name) and prerelease (GenPreShape: solo over the ladder " + strings.Join(u.LadderPre, " ") + " with interleaved pre-releases) and update-solo, update-pair, update-dup (Update; update-dup = one package required twice, jar a1 and tests/test-jar a2, a1,a2 over the ladder) as defined in verif/universe/gen.go, each the full product of its lists, enumerated simplest first."
 	os.RemoveAll(scratchRoot)
 	r.Finish(rule, exhaustive)
 }
@@ -660,7 +803,7 @@ func replay(file string) int {
 		return 3
 	}
 	c := &rec.Replay.Case
-	fmt.Printf("replaying %s tuple (recorded key %s)\nregistry:\n%s\nmanifest:\n%s\nvulns: %+v\ncfg: %v\n", rec.Replay.Strategy, rec.Key, c.SchemaText(), c.ManifestBytes(), c.Vulns, c.Cfg)
+	fmt.Printf("replaying %s tuple (recorded key %s)\nregistry:\n%s\nmanifest:\n%s\nvulns: %+v\ncfg: %v\n", rec.Replay.Strategy, rec.Key, c.SchemaText(), string(c.ManifestBytes())+string(c.ParentBytes()), c.Vulns, c.Cfg)
 	var out *tupleOut
 	if !u.Watchdog(watchdog, func() { out = runTuple(rec.Replay.Strategy, c, filepath.Join(scratchRoot, "replay")) }) {
 		fmt.Println("HANG: tuple did not terminate within", watchdog)
